@@ -37,6 +37,7 @@ TraceNext ==
     /\ UNCHANGED tid
     /\ LET e == Tr[l] IN
        /\ \/ e.e = "BorrowStart"        /\ BorrowStart(e.r)
+          \/ e.e = "BorrowMark"         /\ BorrowMark(e.r)
           \/ e.e = "BorrowTake"         /\ BorrowTake(e.r)
           \/ e.e = "Send"               /\ Send(e.r, e.f)
           \/ e.e = "Respond"            /\ Respond(e.c, e.r)
